@@ -180,4 +180,61 @@ example :
       = some ([7, 1, 2], [some 7, some 1, none, some 2, none], [.user 0 0, .res 1], [1, 2, 3]) := by
   decide
 
+/-! ### `Sequentially` (deprecated, public): nil commands and nil results are skipped there too
+
+The composite command runs on ONE goroutine (the command goroutine the dispatcher gives it), so
+"order" is program order; what is to be shown is which commands it calls and what it returns. -/
+
+/-- the result is the message of the FIRST non-nil command whose result is not nil; nil if there is none -/
+theorem C02_sequentially_result (cs : List (Option (Nat × Bool))) :
+    (sequentiallyFn cs).1 = ((cs.filterMap id).find? (·.2)).map (·.1) := by
+  induction cs with
+  | nil => rfl
+  | cons c cs ih =>
+    match c with
+    | none => simpa [sequentiallyFn] using ih
+    | some (id, true) => simp [sequentiallyFn]
+    | some (id, false) => simpa [sequentiallyFn] using ih
+
+/-- the commands it calls: every non-nil command up to and including the first one with a non-nil
+result, in the given order, each once - and none after it -/
+theorem C02_sequentially_calls (cs : List (Option (Nat × Bool))) :
+    (sequentiallyFn cs).2 =
+      ((cs.filterMap id).takeWhile (fun c => !c.2)).map (·.1) ++
+      (((cs.filterMap id).find? (·.2)).map (·.1)).toList := by
+  induction cs with
+  | nil => rfl
+  | cons c cs ih =>
+    match c with
+    | none => simpa [sequentiallyFn] using ih
+    | some (id, true) => simp [sequentiallyFn]
+    | some (id, false) => simp [sequentiallyFn, ih]
+
+/-- nil commands are skipped: removing them changes nothing -/
+theorem C02_sequentially_skips_nil (cs : List (Option (Nat × Bool))) :
+    sequentiallyFn cs = sequentiallyFn ((cs.filterMap id).map some) := by
+  induction cs with
+  | nil => rfl
+  | cons c cs ih =>
+    match c with
+    | none => simpa [sequentiallyFn] using ih
+    | some (id, true) => simp [sequentiallyFn]
+    | some (id, false) => simp [sequentiallyFn, ih]
+
+/-- all results nil (or no command at all): every non-nil command is called, the result is nil -/
+theorem C02_sequentially_all_nil (cs : List (Option (Nat × Bool))) (h : ∀ c ∈ cs.filterMap id, c.2 = false) :
+    sequentiallyFn cs = (none, (cs.filterMap id).map (·.1)) := by
+  induction cs with
+  | nil => rfl
+  | cons c cs ih =>
+    match c with
+    | none => simpa [sequentiallyFn] using ih (by simpa using h)
+    | some (id, true) => simp at h
+    | some (id, false) =>
+      have := ih (by intro c hc; exact h c (by simp [hc]))
+      simp [sequentiallyFn, this]
+
+example : sequentiallyFn [none, some (4, false), none, some (7, true), some (9, true), some (2, false)] =
+    (some 7, [4, 7]) := by decide
+
 end Tea.Props.C02
